@@ -386,6 +386,332 @@ theorem obj_numTexts_real (v2 : Bool) (rows : List Row) (o : Obj XV) (hb : ObjNu
     rw [hj] at this
     exact jumpRow_texts v2 r o hj (by simpa using this) t h
 
+/-! ### the remaining hand-written handlers: positions, channelLock, objectDivergence, zoneExclusion, positionOffset,
+frequency, screen centre position / width, interaction ranges -/
+
+open Earverif.XmlCustom
+
+def boundNums (b : Bound) : List ℤ := b.value :: (b.max.toList ++ b.min.toList)
+def irangeNums (r : IRange) : List ℤ := r.min.toList ++ r.max.toList
+def gainLin : Option Gain → List ℤ
+  | some (.linear k) => [k]
+  | _ => []
+
+def sposNums : SpeakerPosition → List ℤ
+  | .polar a e d _ => boundNums a ++ boundNums e ++ boundNums d
+  | .cartesian x y z _ => boundNums x ++ boundNums y ++ boundNums z
+def oposNums : ObjectPosition → List ℤ
+  | .polar a e d _ => [a, e, d]
+  | .cartesian x y z _ => [x, y, z]
+def poffNums : PositionOffset → List ℤ
+  | .polar a e d => [a, e, d]
+  | .cartesian x y z => [x, y, z]
+def cposNums : CentrePosition → List ℤ
+  | .polar a e d => [a, e, d]
+  | .cartesian x y z => [x, y, z]
+def prangeNums : PosRange → List ℤ
+  | .polar a e d => irangeNums a ++ irangeNums e ++ irangeNums d
+  | .cartesian x y z => irangeNums x ++ irangeNums y ++ irangeNums z
+def zoneNums : Zone → List ℤ
+  | .cartesian a b c d e f => [a, b, c, d, e, f]
+  | .polar a b c d => [a, b, c, d]
+
+theorem dumpBound_sites (c : String) (b : Bound) (sel : Option String) :
+    ∀ t ∈ (dumpBound c b sel).flatMap (numSites true []), t ∈ (boundNums b).map dumpsNum := by
+  intro t
+  cases hmax : b.max <;> cases hmin : b.min <;>
+    simp [dumpBound, boundNums, hmax, hmin, numSites, elem, Xml.text, Xml.attrs] <;> tauto
+
+theorem spos_sites (p : SpeakerPosition) :
+    ∀ t ∈ (speakerPositionToXml p).flatMap (numSites true []), t ∈ (sposNums p).map dumpsNum := by
+  intro t ht
+  cases p with
+  | polar a e d sel =>
+    simp only [speakerPositionToXml, List.flatMap_append, List.mem_append] at ht
+    simp only [sposNums, List.map_append, List.mem_append]
+    rcases ht with (ht | ht) | ht
+    · exact Or.inl (Or.inl (dumpBound_sites _ _ _ t ht))
+    · exact Or.inl (Or.inr (dumpBound_sites _ _ _ t ht))
+    · split at ht
+      · exact Or.inr (dumpBound_sites _ _ _ t ht)
+      · simp at ht
+  | cartesian x y z sel =>
+    simp only [speakerPositionToXml, List.flatMap_append, List.mem_append] at ht
+    simp only [sposNums, List.map_append, List.mem_append]
+    rcases ht with (ht | ht) | ht
+    · exact Or.inl (Or.inl (dumpBound_sites _ _ _ t ht))
+    · exact Or.inl (Or.inr (dumpBound_sites _ _ _ t ht))
+    · exact Or.inr (dumpBound_sites _ _ _ t ht)
+
+theorem opos_sites (p : ObjectPosition) :
+    ∀ t ∈ (objectPositionToXml p).flatMap (numSites true []), t ∈ (oposNums p).map dumpsNum := by
+  intro t
+  cases p <;> simp only [objectPositionToXml] <;> split_ifs <;>
+    simp [oposNums, dumpCoordinate, numSites, elem, Xml.text, Xml.attrs] <;> tauto
+
+theorem poff_sites (p : PositionOffset) :
+    ∀ t ∈ (positionOffsetToXml (some p)).flatMap (numSites true []), t ∈ (poffNums p).map dumpsNum := by
+  intro t
+  cases p <;> simp only [positionOffsetToXml, dumpOffset] <;> split_ifs <;>
+    simp [poffNums, numSites, elem, Xml.text, Xml.attrs] <;> tauto
+
+theorem cpos_sites (p : CentrePosition) :
+    ∀ t ∈ numSites false ["X", "Y", "Z", "azimuth", "elevation", "distance"] (centrePositionToXml p),
+      t ∈ (cposNums p).map dumpsNum := by
+  intro t
+  cases p <;> simp [centrePositionToXml, cposNums, numSites, elem, Xml.text, Xml.attrs] <;> tauto
+
+theorem width_sites (c : Bool) (w : ℤ) :
+    ∀ t ∈ numSites false ["X", "azimuth"] (screenWidthToXml c w), t = dumpsNum w := by
+  intro t
+  cases c <;> simp [screenWidthToXml, numSites, elem, Xml.text, Xml.attrs]
+
+theorem dumpIRange_sites (c : String) (r : IRange) :
+    ∀ t ∈ (dumpIRange c r).flatMap (numSites true []), t ∈ (irangeNums r).map dumpsNum := by
+  intro t
+  cases hmax : r.max <;> cases hmin : r.min <;>
+    simp [dumpIRange, irangeNums, hmax, hmin, numSites, elem, Xml.text, Xml.attrs] <;> tauto
+
+theorem prange_sites (p : PosRange) :
+    ∀ t ∈ (posRangeToXml (some p)).flatMap (numSites true []), t ∈ (prangeNums p).map dumpsNum := by
+  intro t ht
+  cases p <;>
+  · simp only [posRangeToXml, List.flatMap_append, List.mem_append] at ht
+    simp only [prangeNums, List.map_append, List.mem_append]
+    rcases ht with (ht | ht) | ht
+    · exact Or.inl (Or.inl (dumpIRange_sites _ _ t ht))
+    · exact Or.inl (Or.inr (dumpIRange_sites _ _ t ht))
+    · exact Or.inr (dumpIRange_sites _ _ t ht)
+
+theorem grange_sites (r : GainRange) :
+    ∀ t ∈ (gainRangeToXml (some r)).flatMap (numSites true []), t ∈ (gainLin r.min ++ gainLin r.max).map dumpsNum := by
+  intro t
+  rcases hmin : r.min with _ | (k | k) <;> rcases hmax : r.max with _ | (k' | k') <;>
+    simp [gainRangeToXml, linear?, gainLin, hmin, hmax, numSites, elem, Xml.text, Xml.attrs] <;> tauto
+
+theorem zone_sites (z : Zone) :
+    ∀ t ∈ numSites false (cartKeys ++ polarKeys) (zoneToXml z), t ∈ (zoneNums z).map dumpsNum := by
+  intro t
+  cases z <;> simp [zoneToXml, zoneNums, numSites, elem, Xml.text, Xml.attrs, cartKeys, polarKeys] <;> tauto
+
+
+theorem zones_sites (zs : List Zone) :
+    ∀ t ∈ ((zoneExclusionToXml zs).flatMap Xml.children).flatMap (numSites false (cartKeys ++ polarKeys)),
+      t ∈ (zs.flatMap zoneNums).map dumpsNum := by
+  intro t ht
+  unfold zoneExclusionToXml at ht
+  split_ifs at ht
+  · simp only [List.flatMap_cons, List.flatMap_nil, List.append_nil, Xml.children, List.mem_flatMap, List.mem_map] at ht
+    obtain ⟨x, ⟨z, hz, rfl⟩, hx⟩ := ht
+    obtain ⟨k, hk, rfl⟩ := List.mem_map.mp (zone_sites z t hx)
+    exact List.mem_map.mpr ⟨k, List.mem_flatMap.mpr ⟨z, hz, hk⟩, rfl⟩
+  · simp at ht
+
+/-- a hand-written handler whose numbers are traversed: handler pair (for the `as_handler` closures also the element
+name), the argument it writes from, whether the number sites are on the children of the written elements
+(zoneExclusion > zone), whether the text of those elements is a number, and the names of their numeric attributes -/
+structure SiteSpec where
+  handler : String
+  adm : Option String
+  arg : String
+  inner : Bool
+  textNum : Bool
+  keys : List String
+
+def siteSpecs : List SiteSpec :=
+  [ ⟨"handle_channel_lock / channel_lock_to_xml", none, "channelLock", false, false, ["maxDistance"]⟩,
+    ⟨"handle_divergence / divergence_to_xml", none, "objectDivergence", false, true, ["azimuthRange", "positionRange"]⟩,
+    ⟨"handle_frequency / frequency_to_xml", none, "frequency", false, true, []⟩,
+    ⟨"handle_objects_position / object_position_to_xml", none, "position", false, true, []⟩,
+    ⟨"handle_speaker_position / speaker_position_to_xml", none, "position", false, true, []⟩,
+    ⟨"handle_position_offset / position_offset_to_xml", none, "positionOffset", false, true, []⟩,
+    ⟨"handle_centre_position / centre_position_to_xml", none, "centrePosition", false, false,
+      ["X", "Y", "Z", "azimuth", "elevation", "distance"]⟩,
+    ⟨"handle_screen_width / screen_width_to_xml", none, "width", false, false, ["X", "azimuth"]⟩,
+    ⟨"MainElementHandler.make_gainInteractionRange_handler.<locals>.handle_gainInteractionRange / MainElementHandler.make_gainInteractionRange_handler.<locals>.gainInteractionRange_to_xml",
+      none, "gainInteractionRange", false, true, []⟩,
+    ⟨"MainElementHandler.make_positionInteractionRange_handler.<locals>.handle_positionInteractionRange / MainElementHandler.make_positionInteractionRange_handler.<locals>.positionInteractionRange_to_xml",
+      none, "positionInteractionRange", false, true, []⟩,
+    ⟨"ElementParser.as_handler.<locals>.handle / ElementParser.as_handler.<locals>.to_xml", some "zoneExclusion",
+      "zoneExclusion", true, false, cartKeys ++ polarKeys⟩ ]
+
+/-- the grid numbers held by the values these handlers write (a gain bound given in dB is symbolic and not written) -/
+def xvNums : XV → List ℤ
+  | .leaf (.num k) => [k]
+  | .clock c => c.maxDistance.toList
+  | .diverg d => d.value :: (d.azimuthRange.toList ++ d.positionRange.toList)
+  | .freq f => f.lowPass.toList ++ f.highPass.toList
+  | .opos p => oposNums p
+  | .spos p => sposNums p
+  | .poff p => poffNums p
+  | .cpos p => cposNums p
+  | .grange r => gainLin r.min ++ gainLin r.max
+  | .prange r => prangeNums r
+  | .zones zs => zs.flatMap zoneNums
+  | _ => []
+
+/-- the number texts of the elements `xs` written by a handler under its `SiteSpec` -/
+def sitesOf (sp : SiteSpec) (xs : List Xml) : List String :=
+  (if sp.inner then xs.flatMap Xml.children else xs).flatMap (numSites sp.textNum sp.keys)
+
+def isSiteRow (sp : SiteSpec) (r : Row) : Bool :=
+  (r.kind == "CustomElement" || r.kind == "GenericElement") && r.handler == sp.handler &&
+  (match sp.adm with | some a => r.admName == a | none => true)
+
+theorem of_mem_map {v : XV} {o : Obj XV} {a t : String} (hv : o a = .one v) (h : t ∈ (xvNums v).map dumpsNum) :
+    ∃ (v : XV) (k : ℤ), o a = .one v ∧ k ∈ xvNums v ∧ t = dumpsNum k := by
+  obtain ⟨k, hk, rfl⟩ := List.mem_map.mp h
+  exact ⟨v, k, hv, hk, rfl⟩
+
+theorem clock_sites (c : ChannelLock) :
+    ∀ t ∈ (channelLockToXml (some c)).flatMap (numSites false ["maxDistance"]), t ∈ (c.maxDistance.toList).map dumpsNum := by
+  intro t
+  cases hm : c.maxDistance <;> simp [channelLockToXml, hm, numSites, elem, Xml.attrs]
+
+theorem diverg_sites (d : ObjectDivergence) :
+    ∀ t ∈ (divergenceToXml (some d)).flatMap (numSites true ["azimuthRange", "positionRange"]),
+      t ∈ (d.value :: (d.azimuthRange.toList ++ d.positionRange.toList)).map dumpsNum := by
+  intro t
+  cases ha : d.azimuthRange <;> cases hp : d.positionRange <;>
+    simp [divergenceToXml, ha, hp, numSites, elem, Xml.attrs, Xml.text] <;> tauto
+
+theorem freq_sites (f : Frequency) :
+    ∀ t ∈ (frequencyToXml f).flatMap (numSites true []), t ∈ (f.lowPass.toList ++ f.highPass.toList).map dumpsNum := by
+  intro t
+  cases hl : f.lowPass <;> cases hh : f.highPass <;>
+    simp [frequencyToXml, hl, hh, numSites, elem, Xml.attrs, Xml.text] <;> tauto
+
+theorem siteRow_texts (v2 : Bool) (sp : SiteSpec) (hsp : sp ∈ siteSpecs) (r : Row) (o : Obj XV)
+    (hr : isSiteRow sp r = true) :
+    ∀ t ∈ sitesOf sp ((ofRowG liftCodec XV.leaf (implX v2) r).childrenOut o),
+      ∃ (v : XV) (k : ℤ), o sp.arg = .one v ∧ k ∈ xvNums v ∧ t = dumpsNum k := by
+  intro t ht
+  simp only [isSiteRow, Bool.and_eq_true, beq_iff_eq] at hr
+  obtain ⟨⟨hk, hh⟩, hadm⟩ := hr
+  obtain ⟨_, h2⟩ := ofRowG_custom_out (implX v2) r o hk
+  rw [h2] at ht
+  simp only [siteSpecs, List.mem_cons, List.not_mem_nil, or_false] at hsp
+  rcases hsp with rfl | rfl | rfl | rfl | rfl | rfl | rfl | rfl | rfl | rfl | rfl <;>
+    simp only [sitesOf, Bool.false_eq_true, if_false, if_true] at ht
+  · have himpl : implX v2 r = channelLockImpl := by simp [implX, hh]
+    rw [himpl] at ht; simp only [channelLockImpl] at ht
+    split at ht
+    · rename_i c hc; exact of_mem_map hc (clock_sites c t ht)
+    · simp at ht
+  · have himpl : implX v2 r = divergenceImpl := by simp [implX, hh]
+    rw [himpl] at ht; simp only [divergenceImpl] at ht
+    split at ht
+    · rename_i d hd; exact of_mem_map hd (diverg_sites d t ht)
+    · simp at ht
+  · have himpl : implX v2 r = frequencyImpl := by simp [implX, hh]
+    rw [himpl] at ht; simp only [frequencyImpl] at ht
+    split at ht
+    · rename_i f hf; exact of_mem_map hf (freq_sites f t ht)
+    · simp at ht
+  · have himpl : implX v2 r = positionImpl := by simp [implX, hh]
+    rw [himpl] at ht; simp only [positionImpl] at ht
+    split at ht
+    · rename_i p hp; exact of_mem_map hp (opos_sites p t ht)
+    · simp at ht
+  · have himpl : implX v2 r = speakerImpl := by simp [implX, hh]
+    rw [himpl] at ht; simp only [speakerImpl, xpathImpl] at ht
+    split at ht
+    · rename_i v hv
+      split at ht
+      · rename_i p; exact of_mem_map hv (spos_sites p t ht)
+      · simp at ht
+    · simp at ht
+  · have himpl : implX v2 r = offsetImpl := by simp [implX, hh]
+    rw [himpl] at ht; simp only [offsetImpl, xpathImpl] at ht
+    split at ht
+    · rename_i v hv
+      split at ht
+      · rename_i p; exact of_mem_map hv (poff_sites p t ht)
+      · simp at ht
+    · simp at ht
+  · have himpl : implX v2 r = centreImpl := by simp [implX, hh]
+    rw [himpl] at ht; simp only [centreImpl] at ht
+    split at ht
+    · rename_i c hc
+      simp only [List.flatMap_cons, List.flatMap_nil, List.append_nil] at ht
+      exact of_mem_map hc (cpos_sites c t ht)
+    · simp at ht
+  · have himpl : implX v2 r = widthImpl := by simp [implX, hh]
+    rw [himpl] at ht; simp only [widthImpl] at ht
+    split at ht
+    · rename_i w ty hw hty
+      simp only [List.flatMap_cons, List.flatMap_nil, List.append_nil] at ht
+      exact ⟨_, w, hw, by simp [xvNums], width_sites _ w t ht⟩
+    · simp at ht
+  · have himpl : implX v2 r = gainRangeImpl v2 := by simp [implX, hh]
+    rw [himpl] at ht; simp only [gainRangeImpl, xpathImpl] at ht
+    split at ht
+    · rename_i v hv
+      split at ht
+      · rename_i g; exact of_mem_map hv (grange_sites g t ht)
+      · simp at ht
+    · simp at ht
+  · have himpl : implX v2 r = posRangeImpl := by simp [implX, hh]
+    rw [himpl] at ht; simp only [posRangeImpl, xpathImpl] at ht
+    split at ht
+    · rename_i v hv
+      split at ht
+      · rename_i p; exact of_mem_map hv (prange_sites p t ht)
+      · simp at ht
+    · simp at ht
+  · have himpl : implX v2 r = zoneImpl := by
+      simp only [beq_iff_eq] at hadm
+      simp [implX, hh, hadm]
+    rw [himpl] at ht; simp only [zoneImpl] at ht
+    split at ht
+    · rename_i zs hz; exact of_mem_map hz (zones_sites zs t ht)
+    · simp at ht
+
+/-- the numbers the hand-written handlers of `siteSpecs` write for `o` are bounded -/
+def rowSitesBounded (o : Obj XV) (r : Row) : Bool :=
+  siteSpecs.all fun sp => !isSiteRow sp r ||
+    match o sp.arg with
+    | .one v => (xvNums v).all fun k => decide (k.natAbs < numBound)
+    | .many _ => true
+
+def ObjSitesBounded (rows : List Row) (o : Obj XV) : Bool := rows.all (rowSitesBounded o)
+
+/-- the number texts written by the hand-written handlers of `siteSpecs` -/
+def siteTexts (v2 : Bool) (rows : List Row) (o : Obj XV) : List String :=
+  siteSpecs.flatMap fun sp => (rows.filter (isSiteRow sp)).flatMap fun r =>
+    sitesOf sp ((ofRowG liftCodec XV.leaf (implX v2) r).childrenOut o)
+
+/-- **Objects / DirectSpeakers position (with bounds), channelLock maxDistance, objectDivergence (value, azimuthRange,
+positionRange), zoneExclusion zones, positionOffset, frequency (lowPass, highPass), reference-screen centre position
+and width, gain / position interaction ranges**: under `ObjSitesBounded` every number text these handlers write is the
+real float text of a grid number held by the value stored in the object -/
+theorem obj_siteTexts_real (v2 : Bool) (rows : List Row) (o : Obj XV) (hb : ObjSitesBounded rows o = true) :
+    ∀ t ∈ siteTexts v2 rows o, ∃ (a : String) (v : XV) (k : ℤ), o a = .one v ∧ k ∈ xvNums v ∧ RealFloatText k t := by
+  intro t ht
+  simp only [siteTexts, List.mem_flatMap, List.mem_filter] at ht
+  obtain ⟨sp, hsp, r, ⟨hr, hsr⟩, htx⟩ := ht
+  obtain ⟨v, k, hv, hk, rfl⟩ := siteRow_texts v2 sp hsp r o hsr t htx
+  have h1 := (List.all_eq_true.mp ((List.all_eq_true.mp hb) r hr)) sp hsp
+  rw [hsr, hv] at h1
+  simp only [Bool.not_true, Bool.false_or, List.all_eq_true, decide_eq_true_eq] at h1
+  exact ⟨sp.arg, v, k, hv, hk, realFloatText_dumpsNum k (h1 k hk)⟩
+
+/-- table obligation: every hand-written handler pair of the regenerated tables is one of: a gain handler, jumpPosition,
+a `siteSpecs` handler, the "not before BS.2076-2" refusal (writes nothing), or a handler that only delegates to a
+nested parser of the table (block formats, Matrix, loudnessMetadata, alternativeValueSet, audioObjectInteraction,
+reference screen) — so no number-writing hand-written handler is outside `obj_numTexts_real` / `obj_siteTexts_real` -/
+theorem custom_rows_classified :
+    ∀ t ∈ Earverif.Gen.C08.parsers, ∀ r ∈ t.2, (r.kind = "CustomElement" ∨ r.kind = "GenericElement") →
+      isGainRow r = true ∨ isJumpRow r = true ∨ siteSpecs.any (fun sp => isSiteRow sp r) = true ∨
+      r.handler = "make_no_element_before_v2.<locals>.handle / make_no_element_before_v2.<locals>.to_xml" ∨
+      r.handler = "MainElementHandler.make_block_format_matrix_handler.<locals>.handle_matrix / MainElementHandler.make_block_format_matrix_handler.<locals>.matrix_to_xml" ∨
+      r.handler = "MainElementHandler.make_block_format_handler.<locals>.handle / MainElementHandler.make_block_format_handler.<locals>.to_xml" ∨
+      (r.handler = "ElementParser.as_handler.<locals>.handle / ElementParser.as_handler.<locals>.to_xml" ∧
+        (r.admName = "audioProgrammeReferenceScreen" ∨ r.admName = "audioObjectInteraction")) ∨
+      (r.handler = "ElementParser.as_list_handler.<locals>.handle / ElementParser.as_list_handler.<locals>.to_xml" ∧
+        (r.admName = "loudnessMetadata" ∨ r.admName = "alternativeValueSet")) := by
+  decide +kernel
+
 /-- table obligation (regenerated tables): no `HandleText` row has type `FloatType`, so `isFloatRow` covers every
 declarative row whose text is written by `FloatType.dumps` -/
 theorem no_float_handleText :
